@@ -33,3 +33,31 @@ def _(c):
     c.ensures(names.format(n="len(ps)"), name="keys_are_the_parameter_names")
     c.ensures(dflt.format(n="len(ps)"), name="defaults_only_where_cpython_allows_them")
     c.ensures(req.format(n="len(ps)"), name="no_required_positional_parameter_after_a_defaulted_one")
+
+
+@contract("pyanalyze.signature.Signature.bind_arguments", props=P)
+def _(c):
+    c.param("actual_args", "obj:ActualArguments")
+    c.returns("opt[dict[str,val]]")
+    c.fieldspec("parameters", "dict[str,obj:SigParameter]")
+    c.fieldspec("positionals", "seq[pair[bool,val]]")
+    c.fieldspec("keywords", "dict[str,pair[bool,val]]")
+    c.fieldspec("kind", "val")
+    c.fieldspec("default", "val")
+    c.fieldspec("name", "str")
+    c.fieldspec("value", "obj:Value")
+    c.fieldspec("star_kwargs", "val")
+    c.record_calls += ["self.show_call_error"]
+    c.loop(0, invariant=[("bound_so_far", "all(list(self.parameters)[j] in bound_args for j in range(_k0))"),
+                         ("no_error_reported_yet", "len(appended('self.show_call_error')) == 0"),
+                         ("positional_cursor", "positional_index >= 0")])
+    c.loop(1, invariant=[("cursor_and_log", "positional_index >= 0 and len(appended('self.show_call_error')) == 0 and all(list(self.parameters)[j] in bound_args for j in range(_k0))")])
+    c.requires("all(self.parameters[k].name == k for k in self.parameters)", name="validated.keys_are_parameter_names")
+    c.requires("all(self.parameters[k].kind in KIND_TO_ALLOWED_PREVIOUS for k in self.parameters)", name="type_invariant.kind_is_a_ParameterKind_member")
+    # the values bound to *args / **kwargs are united; nothing is claimed about them here, so unite_values is an opaque local callee
+    c.callee("unite_values", lambda k: (k.param("*values", "tuple"), k.returns("obj:Value")))
+    c.ensures("implies(result is not None, all(k in result for k in self.parameters))", name="a_successful_binding_binds_every_parameter")
+    c.ensures("implies(result is None, len(appended('self.show_call_error')) == 1)", name="a_failed_binding_reports_exactly_one_error")
+    c.ensures("implies(result is not None, len(appended('self.show_call_error')) <= 1)", name="a_successful_binding_reports_at_most_the_paramspec_warning")
+    c.assume("scope of this contract: structural totality of the binding state machine (every parameter bound on success, exactly one error on failure, no index / key / assertion failure for validated signatures); "
+             "the equivalence with CPython's binding is decided by the bounded stand-in only")
